@@ -9,3 +9,8 @@ for mid, nm in [("'.'", 'dot'), ("'e'", 'exp')]:
     for tw, tn in [(0, 'charptr'), (1, 'jsonstring_copied'), (2, 'jsonstring_linked')]:
         OBS.append(Ob(['C14', 'C13'], 'str_twins_%s_%s' % (nm, tn), 'doc', 'harness/doc_str.c', 'h_str_twins', defs=['MID=' + mid, 'TWIN=%d' % tw], unwind=8,
             desc='numeric string D%sD given as const char* (linked) vs %s: identical is<T>()/as<T>(), no read outside the 4-byte source' % (mid.strip("'"), tn), bound='all 100 digit pairs; exactly-sized source buffers', **K3))
+for nm, what, b in [('ops_str_ptr', 'variant(2-byte string) vs C string "ab": six operators in both orders obey the coherence laws; equal iff identical bytes', 'all 2^16 strings'),
+                    ('ops_str_var', 'two string variants in two documents: coherence laws; equal iff identical bytes', 'all pairs of 2-byte strings'),
+                    ('ops_int_scalar', 'variant(int64) vs int32 scalar: coherence laws and value order', 'all values'),
+                    ('arr_eq', 'array equality [x,y] vs [z,w] / [z]', 'all byte-sized x,y,z,w')]:
+    OBS.append(Ob(['C18'], nm, 'doc', 'harness/doc_ops.c', 'h_' + nm, unwind=8, desc=what, bound=b + '; public API on an arena allocator', **K3))
